@@ -106,6 +106,8 @@ def gen_spec(rng, allow):
             rules.append({'pre': pre, 'pat': pat, 'acts': acts, 'cons': cons, 'ret': (rng.choice([0, 0, 0, -1, -2, 1, 2, -3]) if 'ret' in allow else 0)})
             pre = ppre
         passes.append({'type': 'sub', 'pre': pre, 'maxloop': (rng.choice([1, 2, 3, 5, 8]) if 'ret' in allow else 5), 'rules': rules})
+        if 'mixed' in allow and rng.random() < 0.5:
+            passes[-1]['loose_starts'] = True        # start states as the GDL compiler builds them (see gdl.build_pass)
     if 'attach' in allow:
         rules = []
         for ri in range(rng.randrange(1, 4)):
@@ -393,7 +395,7 @@ def feat_spec(rng):
     """Fonts whose interest is Feat / Sill / name: 1..300 features whose value widths make the packed representation
     straddle 32-bit words in every way, v1 and v2 layouts, hidden features, negative setting values, features without
     settings (unbounded), 0..40 languages with zero-padded tags of 1..4 letters, label strings in several languages
-    (BMP and astral), name tables laid out with and without records of other platforms in front."""
+    (BMP and astral), name tables laid out with and without records of other platforms / Windows encodings (1,0), (3,0), (3,10) around the (3,1) records."""
     spec = gen_spec(rng, set("cons,pre,rtl,lookup".split(',')))
     v2 = rng.random() < 0.6
     style = rng.randrange(6)
@@ -468,7 +470,7 @@ def feat_spec(rng):
     if langs:
         spec['sill'] = langs
     recs = []
-    layout = rng.randrange(4)
+    layout = rng.randrange(6)
     if layout == 1:
         recs += [(1, 0, 0, 1, 'MacFamily'), (1, 0, 0, 256, 'MacFeat')]
     if layout in (0, 1, 3):
@@ -480,6 +482,15 @@ def feat_spec(rng):
     if layout == 2 and len(win) > 1 and rng.random() < 0.5:
         recs = [(1, 0, 0, 256, 'MacFeat')]
         win = win[:1]                                       # exactly one Windows record after another platform's record
+    if layout >= 4:
+        # Windows *symbol* (3,0) and UCS-4 (3,10) records next to the Unicode BMP (3,1) ones the engine uses: in layout 4 some name ids
+        # exist only under (3,0) (their labels are absent for the engine), in layout 5 every id exists under both with different text
+        moved = set(rng.sample(sorted(names), max(1, len(names) // 3))) if layout == 4 and names else set()
+        sym = [(3, 0, l, nid, 'SYM-' + t) for (_, _, l, nid, t) in win if layout == 5 or nid in moved]
+        win = [w for w in win if w[3] not in moved]
+        if rng.random() < 0.5:
+            sym += [(3, 10, l, nid, 'UCS4-' + t) for (_, _, l, nid, t) in win[:8]]
+        recs += sym
     recs += win
     recs.sort(key=lambda r_: (r_[0], r_[1], r_[2], r_[3]))
     spec['names'] = [list(r_) for r_ in recs]
